@@ -22,6 +22,7 @@ EXPLANATION = (
     "pool.wait() before the pass ends. C03.5: the containers that fix handler start order are order-preserving by "
     "declared type and no set is iterated on the dispatch path."
     " C03.7 (shared with C12.3): the multiplexer hands out every due event; a source is polled whenever its slot is empty."
+    " C03.5 also: no ordering on the dispatch / matching path is keyed by a per-run identifier (uuid ids, id(), hash())."
 )
 TRUSTED = ["CPython ast parser", "sa.cfg statement CFG", "mypy types/callees", "asyncio: only await suspends"]
 
